@@ -35,6 +35,31 @@ A, NS, CNAME, SOA, PTR, MX, TXT, AAAA, SRV, OPT, RRSIG, TSIG = 1, 2, 5, 6, 12, 1
 
 SPECIAL_OPTIONS = sorted(int(k) for k in dns.edns._type_to_class)
 
+# further types whose reader is a plain field list in the model (MessageM.schema_of):
+# kind: "txt" | list of fields: int n = n fixed octets, "U" = uncompressed name, "R" = the rest, "C8" = counted string
+SPF, NINFO, AVC, RESINFO, WALLET = 99, 56, 258, 261, 262
+AFSDB, RT, RP, KX, PX = 18, 21, 17, 36, 26
+SSHFP, TLSA, SMIMEA, CERT, DNSKEY, CDNSKEY, OPENPGPKEY = 44, 52, 53, 37, 48, 60, 61
+EUI48, EUI64, L32, L64, NID, HINFO, X25, DHCID, NSAP = 108, 109, 105, 106, 104, 13, 19, 49, 22
+NSEC3PARAM, URI, WKS, NAPTR = 51, 256, 11, 35
+FIELD_TYPES_ANY = {
+    SPF: "txt", NINFO: "txt", AVC: "txt", RESINFO: "txt", WALLET: "txt",
+    AFSDB: [2, "U"], RT: [2, "U"], RP: ["U", "U"],
+    SSHFP: [2, "R"], TLSA: [3, "R"], SMIMEA: [3, "R"], CERT: [5, "R"], DNSKEY: [4, "R"], CDNSKEY: [4, "R"],
+    OPENPGPKEY: ["R"], EUI48: [6], EUI64: [8], L32: [2, 4], L64: [2, 8], NID: [2, 8],
+    HINFO: ["C8", "C8"], X25: ["C8"], NSEC3PARAM: [4, "C8"], URI: [4, "R1"],
+}
+FIELD_TYPES_IN = {KX: [2, "U"], PX: [2, "U", "U"], DHCID: ["R"], NSAP: ["R"], WKS: [5, "R"],
+                  NAPTR: [4, "C8", "C8", "C8", "N"]}
+
+
+def field_spec(rdclass, rdtype):
+    if rdtype in FIELD_TYPES_ANY:
+        return FIELD_TYPES_ANY[rdtype]
+    if rdclass == IN and rdtype in FIELD_TYPES_IN:
+        return FIELD_TYPES_IN[rdtype]
+    return None
+
 # ------------------------------------------------------------------ exception codes
 
 
@@ -81,6 +106,8 @@ def modelled(rdclass, rdtype):
     if rdtype in (NS, CNAME, PTR, MX, SOA, TXT, RRSIG, TSIG, OPT):
         return True
     if rdclass == IN and rdtype in (A, AAAA, SRV):
+        return True
+    if field_spec(rdclass, rdtype) is not None:
         return True
     return dns.rdata.get_rdata_class(rdclass, rdtype) is dns.rdata.GenericRdata
 
@@ -135,6 +162,50 @@ def mk_rdata(rdclass, rdtype, rd):
         return cls(rdclass, rdtype, dns.ipv6.inet_ntoa(piece_bytes(rd, 0)))
     if rdclass == IN and rdtype == SRV:
         return cls(rdclass, rdtype, *struct.unpack("!HHH", piece_bytes(rd, 0)), piece_name(rd, 1))
+    spec = field_spec(rdclass, rdtype)
+    if spec == "txt":
+        b = piece_bytes(rd, 0)
+        strings = []
+        i = 0
+        while i < len(b):
+            strings.append(b[i + 1 : i + 1 + b[i]])
+            i += 1 + b[i]
+        return cls(rdclass, rdtype, strings)
+    if spec is not None:
+        pb = lambda i: piece_bytes(rd, i)  # noqa
+        if rdtype in (AFSDB, RT, KX):
+            return cls(rdclass, rdtype, struct.unpack("!H", pb(0))[0], piece_name(rd, 1))
+        if rdtype == RP:
+            return cls(rdclass, rdtype, piece_name(rd, 0), piece_name(rd, 1))
+        if rdtype == PX:
+            return cls(rdclass, rdtype, struct.unpack("!H", pb(0))[0], piece_name(rd, 1), piece_name(rd, 2))
+        if rdtype == SSHFP:
+            return cls(rdclass, rdtype, pb(0)[0], pb(0)[1], pb(1))
+        if rdtype in (TLSA, SMIMEA):
+            return cls(rdclass, rdtype, pb(0)[0], pb(0)[1], pb(0)[2], pb(1))
+        if rdtype == CERT:
+            return cls(rdclass, rdtype, *struct.unpack("!HHB", pb(0)), pb(1))
+        if rdtype in (DNSKEY, CDNSKEY):
+            return cls(rdclass, rdtype, *struct.unpack("!HBB", pb(0)), pb(1))
+        if rdtype in (OPENPGPKEY, DHCID, NSAP, EUI48, EUI64):
+            return cls(rdclass, rdtype, pb(0))
+        if rdtype == L32:
+            return cls(rdclass, rdtype, struct.unpack("!H", pb(0))[0], dns.ipv4.inet_ntoa(pb(1)))
+        if rdtype in (L64, NID):
+            return cls(rdclass, rdtype, struct.unpack("!H", pb(0))[0], pb(1))
+        if rdtype == HINFO:
+            return cls(rdclass, rdtype, pb(0)[1:], pb(1)[1:])
+        if rdtype == X25:
+            return cls(rdclass, rdtype, pb(0)[1:])
+        if rdtype == NSEC3PARAM:
+            return cls(rdclass, rdtype, *struct.unpack("!BBH", pb(0)), pb(1)[1:])
+        if rdtype == URI:
+            return cls(rdclass, rdtype, *struct.unpack("!HH", pb(0)), pb(1))
+        if rdtype == WKS:
+            return cls(rdclass, rdtype, dns.ipv4.inet_ntoa(pb(0)[:4]), pb(0)[4], pb(1))
+        if rdtype == NAPTR:
+            return cls(rdclass, rdtype, *struct.unpack("!HH", pb(0)), pb(1)[1:], pb(2)[1:], pb(3)[1:], piece_name(rd, 4))
+        raise AssertionError((rdclass, rdtype))
     assert cls is dns.rdata.GenericRdata, (rdclass, rdtype)
     return dns.rdata.GenericRdata(rdclass, rdtype, b"".join(bytes(p) for p in rd))
 
@@ -235,6 +306,52 @@ def rdata_pieces(rd):
         return [dns.ipv6.inet_aton(rd.address)]
     if c == IN and t == SRV:
         return [struct.pack("!HHH", rd.priority, rd.weight, rd.port), [0, labels_of(rd.target)]]
+    spec = field_spec(c, t)
+    if spec == "txt":
+        return [b"".join(bytes([len(x)]) + x for x in rd.strings)]
+    if spec is not None:
+        if t in (AFSDB, RT, KX):
+            return [struct.pack("!H", rd.preference), [1, labels_of(rd.exchange)]]
+        if t == RP:
+            return [[1, labels_of(rd.mbox)], [1, labels_of(rd.txt)]]
+        if t == PX:
+            return [struct.pack("!H", rd.preference), [1, labels_of(rd.map822)], [1, labels_of(rd.mapx400)]]
+        if t == SSHFP:
+            return [bytes([rd.algorithm, rd.fp_type]), bytes(rd.fingerprint)]
+        if t in (TLSA, SMIMEA):
+            return [bytes([rd.usage, rd.selector, rd.mtype]), bytes(rd.cert)]
+        if t == CERT:
+            return [struct.pack("!HHB", rd.certificate_type, rd.key_tag, rd.algorithm), bytes(rd.certificate)]
+        if t in (DNSKEY, CDNSKEY):
+            return [struct.pack("!HBB", int(rd.flags), rd.protocol, int(rd.algorithm)), bytes(rd.key)]
+        if t == OPENPGPKEY:
+            return [bytes(rd.key)]
+        if t == DHCID:
+            return [bytes(rd.data)]
+        if t == NSAP:
+            return [bytes(rd.address)]
+        if t in (EUI48, EUI64):
+            return [bytes(rd.eui)]
+        if t == L32:
+            return [struct.pack("!H", rd.preference), dns.ipv4.inet_aton(rd.locator32)]
+        if t == L64:
+            return [struct.pack("!H", rd.preference), bytes.fromhex(rd.locator64.replace(":", ""))]
+        if t == NID:
+            return [struct.pack("!H", rd.preference), bytes.fromhex(rd.nodeid.replace(":", ""))]
+        if t == HINFO:
+            return [bytes([len(rd.cpu)]) + rd.cpu, bytes([len(rd.os)]) + rd.os]
+        if t == X25:
+            return [bytes([len(rd.address)]) + rd.address]
+        if t == NSEC3PARAM:
+            return [struct.pack("!BBH", rd.algorithm, rd.flags, rd.iterations), bytes([len(rd.salt)]) + rd.salt]
+        if t == URI:
+            return [struct.pack("!HH", rd.priority, rd.weight), bytes(rd.target)]
+        if t == WKS:
+            return [dns.ipv4.inet_aton(rd.address) + bytes([rd.protocol]), bytes(rd.bitmap)]
+        if t == NAPTR:
+            return [struct.pack("!HH", rd.order, rd.preference), bytes([len(rd.flags)]) + rd.flags,
+                    bytes([len(rd.service)]) + rd.service, bytes([len(rd.regexp)]) + rd.regexp,
+                    [0, labels_of(rd.replacement)]]
     raise Unmodelled(f"{c}/{t}")
 
 
@@ -270,7 +387,8 @@ def _patched_get_rdata_class(rdclass, rdtype, use_generic=True):
 
 
 def modelled_fast(c, t):
-    return t in (NS, CNAME, PTR, MX, SOA, TXT, RRSIG, TSIG, OPT) or (c == IN and t in (A, AAAA, SRV))
+    return (t in (NS, CNAME, PTR, MX, SOA, TXT, RRSIG, TSIG, OPT) or (c == IN and t in (A, AAAA, SRV))
+            or field_spec(c, t) is not None)
 
 
 def _patched_get_option_class(otype):
@@ -409,7 +527,10 @@ def walk_name(wire, off, label_starts):
 
 
 NAME_FIELDS = {NS: ["n"], CNAME: ["n"], PTR: ["n"], MX: [2, "n"], SOA: ["n", "n", 20], SRV: [6, "n"],
-               RRSIG: [18, "n", None], TSIG: ["n", None]}
+               RRSIG: [18, "n", None], TSIG: ["n", None],
+               AFSDB: [2, "n"], RT: [2, "n"], RP: ["n", "n"], KX: [2, "n"], PX: [2, "n", "n"],
+               NAPTR: [4, "c8", "c8", "c8", "n"]}
+IN_ONLY_NAME_TYPES = (SRV, KX, PX, NAPTR)
 
 
 def walk(wire):
@@ -453,7 +574,7 @@ def walk(wire):
                 raise WalkError("rdata runs off the end")
             rnames = []
             ec = zone_class if (zone_class is not None and c in (ANY, NONE)) else c   # update deletes
-            if rdlen > 0 and t in NAME_FIELDS and (ec == IN or t not in (SRV,)):
+            if rdlen > 0 and t in NAME_FIELDS and (ec == IN or t not in IN_ONLY_NAME_TYPES):
                 o = off
                 for f in NAME_FIELDS[t]:
                     if f == "n":
@@ -461,6 +582,10 @@ def walk(wire):
                         rnames.append(ls)
                     elif f is None:
                         break
+                    elif f == "c8":
+                        if o >= off + rdlen:
+                            raise WalkError("counted string runs off the rdata")
+                        o += 1 + wire[o]
                     else:
                         o += f
             rrs.append((sec, labels, t, c, ttl, (off, rdlen), rnames, rr_off))
@@ -626,10 +751,36 @@ def gen_rdata(rng, pool, rdclass, rdtype):
         return [bytes(rng.randrange(256) for _ in range(16))]
     if rdclass == IN and rdtype == SRV:
         return [struct.pack("!HHH", rng.randrange(65536), rng.randrange(65536), rng.randrange(65536)), [0, nm()]]
+    spec = field_spec(rdclass, rdtype)
+    if spec == "txt":
+        k = rng.choice([1, 1, 2, 3])
+        b = b""
+        for _ in range(k):
+            n = rng.choice([0, 1, 5, 20, 255, rng.randrange(256)])
+            b += bytes([n]) + bytes(rng.randrange(256) for _ in range(n))
+        return [b]
+    if spec is not None:
+        out = []
+        for f in spec:
+            if isinstance(f, int):
+                out.append(bytes(rng.choice([0, 255, rng.randrange(256)]) for _ in range(f)))
+            elif f == "U":
+                out.append([1, nm()])
+            elif f == "N":
+                out.append([0, nm()])
+            elif f == "R1":
+                out.append(bytes(rng.randrange(256) for _ in range(rng.choice([1, 2, 20, 70]))))
+            elif f == "R":
+                out.append(bytes(rng.randrange(256) for _ in range(rng.choice([0, 1, 4, 20, 33, 70]))))
+            elif f == "C8":
+                n = rng.choice([0, 1, 6, 255, rng.randrange(256)])
+                out.append(bytes([n]) + bytes(rng.randrange(256) for _ in range(n)))
+        return out
     n = rng.choice([0, 1, 2, 7, 30, rng.randrange(100)])
     return [bytes(rng.randrange(256) for _ in range(n))]
 
 
+FIELD_TYPES_ALL = sorted(FIELD_TYPES_ANY) + sorted(FIELD_TYPES_IN)
 GENERIC_TYPES = [65280, 65534, 3, 4, 10, 31, 30, 100, 254, 255, 40, 65535, 0]
 TYPES_IN = [A, A, NS, CNAME, SOA, PTR, MX, MX, TXT, AAAA, SRV, RRSIG, RRSIG, NS]
 TTL_CHOICES = [0, 1, 300, 3600, 86400, 2**31 - 1]
@@ -657,10 +808,13 @@ def rd_key(rd, origin=None):
 def gen_rrset(rng, pool, rdclass=IN, types=None, used=None, section=1):
     """a non-empty rrset with distinct rdatas; `used` holds the keys already taken in the section"""
     for _ in range(20):
-        if rng.random() < 0.15:
+        r_ = rng.random()
+        if r_ < 0.15:
             rdtype = rng.choice(GENERIC_TYPES)
             if not modelled(rdclass, rdtype):
                 continue
+        elif r_ < 0.33 and types is None:
+            rdtype = rng.choice(FIELD_TYPES_ALL)
         else:
             rdtype = rng.choice(types or TYPES_IN)
         if not modelled(rdclass, rdtype) or rdtype in (OPT, TSIG):
@@ -902,7 +1056,7 @@ def mutate_fields(rng, wire):
     w = bytearray(wire)
     which = rng.choice(["type", "class", "ttl", "rdlen", "rdata"])
     if which == "type":
-        w[hdr : hdr + 2] = struct.pack("!H", rng.choice([A, NS, CNAME, SOA, PTR, MX, TXT, AAAA, SRV, RRSIG, OPT, TSIG, 65280, 30, 24, 47, 0]))
+        w[hdr : hdr + 2] = struct.pack("!H", rng.choice([A, NS, CNAME, SOA, PTR, MX, TXT, AAAA, SRV, RRSIG, OPT, TSIG, 65280, 30, 24, 47, 0] + FIELD_TYPES_ALL))
     elif which == "class":
         w[hdr + 2 : hdr + 4] = struct.pack("!H", rng.choice([IN, CH, HS, NONE, ANY, 0, 7, 1232]))
     elif which == "ttl":
@@ -1015,7 +1169,8 @@ def rr_list(am, origin):
             if s == 0:
                 sec.append((nm(rs[0]), rs[1], rs[2]))
             else:
-                sec.append((nm(rs[0]), rs[1], rs[2], rs[3], rs[4], rs[5], tuple(rd(x) for x in rs[6])))
+                # (the TTL attribute of an empty record set is not on the wire: the empty form carries TTL 0)
+                sec.append((nm(rs[0]), rs[1], rs[2], rs[3], rs[4], rs[5] if rs[6] else 0, tuple(rd(x) for x in rs[6])))
         out.append(sec)
     return out
 
